@@ -52,12 +52,16 @@ type advInsts struct {
 	// an accepted call changes what they store, never what is true
 	full63R   *utreexo.MapPollard
 	fromrootR *utreexo.MapPollard
+	// allocated for one row more than the forest needs: numbers just beyond the
+	// geometry of the forest are positions of the allocation
+	fullR1 *utreexo.MapPollard
 }
 
 var advAPIs = []string{"Verify", "Pollard.Verify", "MapPollard.Verify/63", "MapPollard.Verify/0",
 	"MapPollard.VerifyPartialProof/full", "MapPollard.VerifyPartialProof/fromroots",
 	"Pollard.Verify@after-undo", "MapPollard.Verify/63@after-undo",
-	"MapPollard.Verify/63+remember", "MapPollard.Verify/fromroots+remember", "MapPollard.VerifyPartialProof/fromroots+remember"}
+	"MapPollard.Verify/63+remember", "MapPollard.Verify/fromroots+remember", "MapPollard.VerifyPartialProof/fromroots+remember",
+	"MapPollard.Verify/rows+1", "MapPollard.VerifyPartialProof/rows+1"}
 
 // buildAdv constructs real instances in the abstract state of the line: add n
 // leaves, then delete the dead ones with the specification's canonical proof.
@@ -110,6 +114,10 @@ func buildAdv(sy *Symb, st *Step, exp *Expect) (*advInsts, error) {
 	a.fromroot = &fr
 	a.full63R = newMap(true, 63)
 	if err := mk(a.full63R); err != nil {
+		return nil, err
+	}
+	a.fullR1 = newMap(true, treeRows(uint64(st.K))+1)
+	if err := mk(a.fullR1); err != nil {
 		return nil, err
 	}
 	frr := utreexo.NewMapPollardFromRoots(sy.Hs(exp.Roots), exp.N, false)
@@ -198,6 +206,10 @@ func (a *advInsts) call(api int, hs []Hash, tg []uint64, pf []Hash) (accepted bo
 		err = a.fromrootR.Verify(hs, proof, true)
 	case 10:
 		err = a.fromrootR.VerifyPartialProof(tg, hs, pf, true)
+	case 11:
+		err = a.fullR1.Verify(hs, proof, false)
+	case 12:
+		err = a.fullR1.VerifyPartialProof(tg, hs, pf, false)
 	}
 	return err == nil
 }
